@@ -2,7 +2,7 @@
    Signatures are ideal (Spec.ideal: Section hypotheses, no axioms); Proofs.ta_ideal shows them satisfiable. *)
 From Coq Require Import String List Bool.
 From Verif Require Import Base.Str Base.Percent Base.Base64 Base.Py Base.Py2 C15.Model C15.Spec C15.Proofs C15.Source2.
-From VerifGen Require Import C15Tables C15Src2 C15Src2v.
+From VerifGen Require Import C15Tables C15Src2 C15Src2v C15Src2p.
 Import ListNotations.
 Open Scope string_scope.
 
@@ -175,6 +175,28 @@ Theorem c15_request_c : forall (key cert : Type) (cert_of : key -> cert) sign ve
     /\ sp = encode (sign k d (octets_of "SAMLRequest" origdoc rs a)).
 Proof. exact @request_sound_c. Qed.
 Print Assumptions c15_request_c.
+
+(* --- the allow-list on the verifying side (strengthening round 6) ---
+   "An unsupported SigAlg is never treated as verified", with supported = the five allowed algorithms (Spec.supported;
+   until round 6: whatever the live signer table named).  The live table SIGNER_ALGS names no other URI ... *)
+Theorem c15_signers_allowed : forall a, In a (map fst signer_algs) -> In a spec_allowed.
+Proof. exact signer_algs_allowed. Qed.
+Print Assumptions c15_signers_allowed.
+
+(* ... hence whatever verify_redirect_signature answers True to carries an allowed SigAlg - for every certificate
+   argument, every verifier, every verify function (however genuine the signature is for the algorithm named) ... *)
+Theorem c15_verified_alg_allowed : forall (key cert : Type) (cert_of : key -> cert) verify own q ca,
+  verify_redirect_signature_c cert_of verify own q ca = VTrue ->
+  exists a, get q "SigAlg" = Some a /\ In a spec_allowed.
+Proof. exact @verified_alg_allowed. Qed.
+Print Assumptions c15_verified_alg_allowed.
+
+(* ... and a receiver that requires signatures accepts a request only with an allowed SigAlg, whatever is published *)
+Theorem c15_request_alg_allowed : forall (key cert : Type) (cert_of : key -> cert) verify own certs origdoc rs sigalg signature,
+  loads_redirect_c cert_of verify own certs true origdoc rs sigalg signature = true ->
+  exists a, sigalg = Some a /\ In a spec_allowed.
+Proof. exact @request_alg_allowed. Qed.
+Print Assumptions c15_request_alg_allowed.
 
 (* --- the receiving entry point: presence of the detached parameters (strengthening round 4) ---
    rs / sigalg / signature are the arguments of Server.parse_authn_request / Entity.parse_logout_request as they
@@ -378,3 +400,50 @@ Theorem c15_source2_http_redirect_message :
   = enc_sres add_query loc (http_redirect_message sign k typ (deflate msg) rs alg true).
 Proof. exact @src2_http_redirect_message_is_model. Qed.
 Print Assumptions c15_source2_http_redirect_message.
+
+(* --- the receiving entry points (strengthening round 6): translated from the current source text, proved to be
+   pass-throughs for ANY callee - the SAMLRequest value, RelayState, SigAlg and Signature that the entry point is
+   handed are the ones Entity._parse_request / Request._loads get *)
+Theorem c15_source2_parse_authn_request :
+  forall (parse_request_ext : pyval -> pyval -> pyval -> pyval -> pyval -> pyval -> pyval -> pyval -> pyval)
+         self enc binding rs sigalg sg,
+  is_bad enc = false -> is_bad binding = false -> is_bad rs = false -> is_bad sigalg = false -> is_bad sg = false ->
+  src2_parse_authn_request parse_request_ext self enc binding rs sigalg sg
+  = parse_request_ext self enc (PStr "class AuthnRequest") (PStr "single_sign_on_service") binding rs sigalg sg.
+Proof. exact src2_parse_authn_request_hands_over. Qed.
+Print Assumptions c15_source2_parse_authn_request.
+
+Theorem c15_source2_parse_logout_request :
+  forall (parse_request_ext : pyval -> pyval -> pyval -> pyval -> pyval -> pyval -> pyval -> pyval -> pyval)
+         self enc binding rs sigalg sg,
+  is_bad enc = false -> is_bad binding = false -> is_bad rs = false -> is_bad sigalg = false -> is_bad sg = false ->
+  src2_parse_logout_request parse_request_ext self enc binding rs sigalg sg
+  = parse_request_ext self enc (PStr "class LogoutRequest") (PStr "single_logout_service") binding rs sigalg sg.
+Proof. exact src2_parse_logout_request_hands_over. Qed.
+Print Assumptions c15_source2_parse_logout_request.
+
+Theorem c15_source2_request_loads :
+  forall (loads_ext : pyval -> pyval -> pyval -> pyval -> pyval -> pyval -> pyval -> pyval -> pyval -> pyval)
+         self xmldata binding origdoc must ovc rs sigalg sg,
+  is_bad xmldata = false -> is_bad binding = false -> is_bad origdoc = false -> is_bad must = false ->
+  is_bad ovc = false -> is_bad rs = false -> is_bad sigalg = false -> is_bad sg = false ->
+  src2_request_loads loads_ext self xmldata binding origdoc must ovc rs sigalg sg
+  = loads_ext self xmldata binding origdoc must ovc rs sigalg sg.
+Proof. exact src2_request_loads_hands_over. Qed.
+Print Assumptions c15_source2_request_loads.
+
+(* Entity._parse_request, for ALL externals and arguments: an exception leaves it, or the result is pr_tail of
+   _request.loads(.., origdoc=enc_request, .., relay_state=relay_state, sigalg=sigalg, signature=signature) with the
+   four received values unchanged (Source2.handed_over) *)
+Theorem c15_source2_parse_request :
+  forall (endpoint_ext : pyval -> pyval -> pyval -> pyval -> pyval)
+         (mkreq_ext : pyval -> pyval -> pyval -> pyval -> pyval -> pyval)
+         (unravel_ext : pyval -> pyval -> pyval -> pyval -> pyval)
+         (cfg_getattr_ext : pyval -> pyval -> pyval -> pyval)
+         (loads_ext : pyval -> pyval -> pyval -> pyval -> pyval -> pyval -> pyval -> pyval -> pyval -> pyval)
+         (verify_ext : pyval -> pyval) (enc binding rs sigalg sg self request_cls service : pyval),
+  handed_over loads_ext verify_ext enc binding rs sigalg sg
+    (src2_parse_request endpoint_ext mkreq_ext unravel_ext cfg_getattr_ext loads_ext verify_ext
+                        self enc request_cls service binding rs sigalg sg).
+Proof. exact src2_parse_request_hands_over. Qed.
+Print Assumptions c15_source2_parse_request.
